@@ -165,6 +165,47 @@ func GenMap(r *mon.RNG, o *MapOpts) *GMap {
 			g.Rules[st] = append(g.Rules[st], gr)
 		}
 	}
+	// A state whose rules are all lexer-elided (lower-case names), entered by elided rules:
+	// the shape of a fully elided /* ... */ comment state. Several state changes then
+	// happen inside one Next() call without any token being returned.
+	if o.Elide && ns > 1 && r.Chance(1, 3) {
+		S := g.States[1+r.Intn(ns-1)]
+		hasPop := false
+		for i := range g.Rules[S] {
+			ru := &g.Rules[S][i]
+			if ru.rx == nil {
+				continue
+			}
+			nm := newName(true)
+			pool[nm] = ru.rx
+			ru.Name = nm
+			if ru.Action == "pop" {
+				hasPop = true
+			}
+		}
+		if !hasPop {
+			for i := range g.Rules[S] {
+				ru := &g.Rules[S][i]
+				if ru.rx != nil && ru.Action == "" && !ru.rx.Nullable() {
+					ru.Action = "pop"
+					break
+				}
+			}
+		}
+		for _, st := range g.States {
+			if st == S {
+				continue
+			}
+			for i := range g.Rules[st] {
+				ru := &g.Rules[st][i]
+				if ru.rx != nil && ru.Action == "push" && ru.Target == S {
+					nm := newName(true)
+					pool[nm] = ru.rx
+					ru.Name = nm
+				}
+			}
+		}
+	}
 	// Hostile: a pushing rule whose group may not participate.
 	if o.Hostile && ns > 1 && r.Chance(1, 2) {
 		rx := &RX{Op: "cat", Kids: []*RX{{Op: "quest", Kids: []*RX{{Op: "cap", Kids: []*RX{{Op: "lit", Lit: "<"}}}}}, {Op: "lit", Lit: "("}, {Op: "cap", Kids: []*RX{{Op: "star", Kids: []*RX{{Op: "class", Set: []rune{'a', 'c'}}}}}}}}
